@@ -35,9 +35,10 @@ func (it *Interp) timeField(t *Agg, field string, lo, hi uint64) *Term {
 		}
 		return it.c64(int64(v))
 	}
-	v := it.St.Var(name, BV(64))
-	it.pushPC(it.St.And(it.St.Ule(it.c64(int64(lo)), v), it.St.Ule(v, it.c64(int64(hi)))))
-	return v
+	// lo + (u mod (hi-lo+1)): every value of the range is reachable and the range is
+	// visible to the syntactic interval analysis (no path-condition constraint needed)
+	u := it.St.Var(name, BV(8))
+	return it.St.Add(it.c64(int64(lo)), it.St.Zext(it.St.URem(u, it.St.Const(8, hi-lo+1)), 64))
 }
 
 var timeFields = map[string][2]uint64{"month": {1, 12}, "day": {1, 31}, "hour": {0, 23}, "minute": {0, 59}, "second": {0, 59}, "year2": {0, 99}}
@@ -75,6 +76,8 @@ func registerMoreStubs(it *Interp) {
 			return it.opaqueStr("time.Format")
 		}
 		var parts []*Str
+		numeric := true
+		val := it.c64(0)
 		i := 0
 		for i < len(layout) {
 			if i+2 <= len(layout) {
@@ -95,7 +98,9 @@ func registerMoreStubs(it *Interp) {
 				}
 				if f != "" {
 					r := timeFields[f]
-					parts = append(parts, it.formatInt(it.timeField(t, f, r[0], r[1]), false, 2, true))
+					fv := it.timeField(t, f, r[0], r[1])
+					parts = append(parts, it.formatInt(fv, false, 2, true))
+					val = it.St.Add(it.St.Mul(val, it.c64(100)), fv)
 					i += 2
 					continue
 				}
@@ -105,12 +110,20 @@ func registerMoreStubs(it *Interp) {
 				return it.opaqueStr("time.Format:" + layout)
 			}
 			parts = append(parts, it.constStr(string(c)))
+			numeric = false
 			i++
 		}
 		if len(parts) == 0 {
 			return it.constStr("")
 		}
-		return it.strConcat(parts)
+		res := it.strConcat(parts)
+		if numeric {
+			if it.fmtTimeVals == nil {
+				it.fmtTimeVals = map[*Object]*Term{}
+			}
+			it.fmtTimeVals[res.Obj] = val
+		}
+		return res
 	}
 	s["strconv.Atoi"] = func(it *Interp, fr *frame, cc *ssa.CallCommon, a []Value) Value {
 		x := a[0].(*Str)
@@ -120,6 +133,22 @@ func registerMoreStubs(it *Interp) {
 				return Tuple{it.c64(0), it.newError("strconv.Atoi: parsing " + strconv.Quote(cs) + ": invalid syntax")}
 			}
 			return Tuple{it.c64(int64(v)), it.nilError()}
+		}
+		if tv, ok := it.fmtTimeVals[x.Obj]; ok && x.Off.IsConst() && x.Off.Val == 0 && x.Len.IsConst() && int(x.Len.Val) == len(x.Obj.Cells) {
+			// the decimal rendering of a clock reading: its value is known exactly
+			digs := make([]*Term, len(x.Obj.Cells))
+			for i := range digs {
+				digs[i] = x.Obj.Cells[i].(*Term)
+			}
+			if it.atoiMap == nil {
+				it.atoiMap = map[*Term][]*Term{}
+			}
+			it.atoiMap[tv] = digs
+			if _, h := it.St.rangeOf(tv); h <= mask(32) {
+				// also the value after an (exact) conversion to a 32-bit integer
+				it.atoiMap[it.St.Extract(tv, 31, 0)] = digs
+			}
+			return Tuple{tv, it.nilError()}
 		}
 		n := int(it.concretize(x.Len))
 		if n == 0 || n > 18 {
@@ -134,6 +163,14 @@ func registerMoreStubs(it *Interp) {
 			sum = it.St.Add(it.St.Mul(sum, it.c64(10)), it.St.Zext(it.St.Sub(c, it.St.Const(8, '0')), 64))
 		}
 		if it.branchOrConst(valid) {
+			if it.atoiMap == nil {
+				it.atoiMap = map[*Term][]*Term{}
+			}
+			digs := make([]*Term, n)
+			for i := 0; i < n; i++ {
+				digs[i] = it.cellAtI(v, i)
+			}
+			it.atoiMap[sum] = digs
 			return Tuple{sum, it.nilError()}
 		}
 		return Tuple{it.c64(0), it.newError("strconv.Atoi: invalid syntax")}
